@@ -17,7 +17,7 @@ for pid in ALL:
         "evidence_file": "evidence/%s.json" % pid,
         "replay_cmd_template": "cat {path}   # self-contained: inputs, observed vs expected; re-run: VERIF_SEED=<seed in file> ./check.sh %s quick" % pid,
         "engine": "coq-proof+correspondence",
-        "level_claimed": {"category": "proof", "text": c["text"], "design_ref": c.get("design_ref", "DESIGN.md section 6, " + pid)},
+        "level_claimed": {"category": "proof", "text": c["text"], "design_ref": c.get("design_ref", "DESIGN.md section 5, " + pid)},
         "level_note": c["note"],
         "technique": c["technique"],
     })
